@@ -203,8 +203,14 @@ func (sc *context) process(value px.Value, doer px.Doer) {
 	if ref, ok := sc.values[value]; ok {
 		sc.consumer.AddRef(ref)
 	} else {
-		sc.values[value] = sc.refIndex
+		idx := sc.refIndex
+		sc.values[value] = idx
 		doer()
+		if sc.refIndex == idx {
+			// The doer produced no position (the value degraded to a string that was itself emitted
+			// as a reference), so there is nothing at idx that a later occurrence could refer to.
+			delete(sc.values, value)
+		}
 	}
 }
 
